@@ -946,7 +946,7 @@ func ruleIsolationFilterFlag(c *Ctx) {
 	glv := F(P.Method("server/core", "StoreInfo", "GetLabelValue"))
 	isA := func(v ssa.Value) bool {
 		bo, ok := v.(*ssa.BinOp)
-		return ok && bo.Op == token.EQL && (valueIsCallTo(bo.X, glv) || valueIsCallTo(bo.Y, glv))
+		return ok && (bo.Op == token.EQL || bo.Op == token.NEQ) && (valueIsCallTo(bo.X, glv) || valueIsCallTo(bo.Y, glv))
 	}
 	n := 0
 	for _, l := range loopsOf(fn) {
@@ -959,21 +959,34 @@ func ruleIsolationFilterFlag(c *Ctx) {
 				continue
 			}
 			isOld := func(v ssa.Value) bool { return v == ssa.Value(phi) }
-			for i, e := range phi.Edges {
-				if i >= len(l.header.Preds) || !l.blocks[l.header.Preds[i]] {
-					continue
-				}
-				n++
-				okT, detail := true, ""
-				for _, row := range [][3]bool{{true, true, true}, {false, true, false}, {true, false, false}, {false, false, false}} {
+			// every way round the loop that is possible for a given (label equal, flag so far) leaves the flag at their conjunction
+			okT, detail, back := true, "", 0
+			for _, row := range [][3]bool{{true, true, true}, {false, true, false}, {true, false, false}, {false, false, false}} {
+				ways := 0
+				for i, e := range phi.Edges {
+					if i >= len(l.header.Preds) || !l.blocks[l.header.Preds[i]] {
+						continue
+					}
+					back++
+					if !flagEdgeFeasible(l.header, i, isA, isOld, row[0], row[1], 6) {
+						continue
+					}
+					ways++
 					r, okE := evalFlag(e, isA, isOld, row[0], row[1], 6)
 					if !okE || r != row[2] {
 						okT = false
 						detail = fmt.Sprintf("label equal=%v, flag so far=%v: gives %v (decided: %v), want %v", row[0], row[1], r, okE, row[2])
 					}
 				}
-				c.Check(okT, rule, "per-label flag of "+fnName(fn), "(store's label value == constraint) ∧ (flag so far), decided by these two alone", P.instrPos(phi), detail)
+				if ways == 0 {
+					okT, detail = false, fmt.Sprintf("label equal=%v, flag so far=%v: no way round the loop", row[0], row[1])
+				}
 			}
+			if back == 0 {
+				continue
+			}
+			n++
+			c.Check(okT, rule, "per-label flag of "+fnName(fn), "(store's label value == constraint) ∧ (flag so far), decided by these two alone", P.instrPos(phi), detail)
 		}
 	}
 	if n == 0 {
